@@ -44,129 +44,239 @@ func runC12(c *Ctx) {
 	ruleTransactionPairing(c, "C12.1")
 
 	// ---- C12.2
-	c.Rule("C12.2", "completion belongs to the remover: each call of (*Transaction).WriteResult has as receiver result #0 of a trMap.Find(key) in the same function on its ok edge, is dominated by trMap.Delete(key) with the same key, and Client.mutexTrMap is held at the Find and at the Delete with no Unlock of it between them", 3)
-	for _, cs := range w.callsTo(writeRes) {
-		fn := cs.Parent()
-		c.Anchor("C12.2", fname(fn)+"@"+anchorOrd(c, "C12.2", fname(fn)))
-		pos := w.instrPos(cs)
-		// the receiver may come out of a helper that does the find+delete (then the helper's
-		// returns that can produce it on this path are what the Delete must dominate)
-		var recv ssa.Value = cs.Common().Args[0]
-		var hrets []*ssa.Return
-		if dc, _ := callOf(w.resolveLoad(recv)); dc == nil || dc.Call.StaticCallee() != find {
-			recv, hrets, _ = w.originAt(recv, cs)
-		}
-		fcv, fi := callOf(recv)
-		if fcv == nil || fcv.Call.StaticCallee() != find || fi != 0 {
-			c.Bad("C12.2", fname(fn), "WriteResult", pos, "the transaction completed here was not obtained from trMap.Find in this function: "+w.desc(cs.Common().Args[0]))
-			continue
-		}
-		fc, _ := w.realOf(fcv).(*ssa.Call)
-		if fc == nil {
-			c.Bad("C12.2", fname(fn), "WriteResult", pos, "the transaction completed here was not obtained from trMap.Find in this function: "+w.desc(cs.Common().Args[0]))
-			continue
-		}
-		hfn := fc.Parent()
-		var dcall *ssa.Call
-		w.eachInstr(hfn, func(in ssa.Instruction) {
-			call, ok := in.(*ssa.Call)
-			if !ok || call.Call.StaticCallee() != del || !w.sameKey(call.Call.Args[1], fc.Call.Args[1]) {
-				return
+	c.Rule("C12.2", "completion belongs to the remover: each call of (*Transaction).WriteResult — followed through forwarding helpers to the function that looks the transaction up — has as receiver result #0 of a trMap.Find(key) made earlier on the path, with trMap.Delete of the same key (or of that transaction's own Key) between the Find and the completion, Client.mutexTrMap held at the Find and at the Delete and no Unlock of it between them", 3)
+	{
+		isTxOp := func(in ssa.Instruction) bool {
+			ci, ok := in.(ssa.CallInstruction)
+			if !ok {
+				return false
 			}
-			if hfn == fn {
-				if instrDominates(call, cs) {
-					dcall = call
+			switch ci.Common().StaticCallee() {
+			case find, del, writeRes:
+				return true
+			}
+			if lo := w.lockOpOf(ci.Common()); lo != nil && lo.class == lockTr {
+				return true
+			}
+			return false
+		}
+		mayTx := w.mayContain(isTxOp)
+		mayFind := w.mayContain(func(in ssa.Instruction) bool { return staticCallee(in) == find })
+		type site struct {
+			root *ssa.Function
+			at   ssa.CallInstruction
+		}
+		var sites []site
+		seenSite := map[ssa.CallInstruction]bool{}
+		for _, lc := range w.liftCalls(writeRes, mayFind, 4) {
+			if !seenSite[lc.at] {
+				seenSite[lc.at] = true
+				sites = append(sites, site{lc.fn, lc.at})
+			}
+		}
+		type verdict struct {
+			n   int
+			bad string
+		}
+		verdicts := map[ssa.CallInstruction]*verdict{}
+		type st struct {
+			find  *ssa.Call
+			delOK bool
+			unl   ssa.Instruction
+		}
+		doneRoot := map[*ssa.Function]bool{}
+		exhausted := false
+		for _, s0 := range sites {
+			root := s0.root
+			if doneRoot[root] {
+				continue
+			}
+			doneRoot[root] = true
+			isFindResult := func(v ssa.Value, fc *ssa.Call, env *pathEnv) bool {
+				if fc == nil {
+					return false
 				}
-				return
+				v = env.resolve(w.resolveLoad(v))
+				ex, ok := v.(*ssa.Extract)
+				return ok && ex.Tuple == fc && ex.Index == 0
 			}
-			all := len(hrets) > 0
-			for _, r := range hrets {
-				if !instrDominates(call, r) {
-					all = false
+			cfg := &ipCfg[st]{w: w}
+			cfg.Inline = func(_ ssa.CallInstruction, h *ssa.Function) bool {
+				return w.IsMod[h] && h != find && h != del && h != writeRes && mayTx(h)
+			}
+			cfg.Return = func(*ssa.Return, st, *pathEnv) {}
+			cfg.Step = func(in ssa.Instruction, s st, env *pathEnv, stack []ssa.CallInstruction) st {
+				ci, ok := in.(ssa.CallInstruction)
+				if !ok {
+					return s
 				}
+				if _, isGo := in.(*ssa.Go); isGo {
+					return s
+				}
+				switch ci.Common().StaticCallee() {
+				case find:
+					if call, isCall := in.(*ssa.Call); isCall {
+						s = st{find: call}
+					}
+					return s
+				case del:
+					if s.find != nil {
+						k := ci.Common().Args[1]
+						fk := s.find.Call.Args[1]
+						same := w.sameKey(k, fk) || env.resolve(w.resolveLoad(k)) == env.resolve(w.resolveLoad(fk))
+						if !same {
+							// the transaction's own key: tr.Key with tr the Find result (C12.4: Insert keys equal Transaction.Key)
+							if base, f, isL := fieldLoad(w.resolveLoad(k)); isL && nm(f) == "Key" && isFindResult(base, s.find, env) {
+								same = true
+							}
+						}
+						if same {
+							s.delOK = true
+						}
+					}
+					return s
+				case writeRes:
+					top := ci
+					if len(stack) > 0 {
+						top = stack[0]
+					}
+					v := verdicts[top]
+					if v == nil {
+						v = &verdict{}
+						verdicts[top] = v
+					}
+					v.n++
+					switch {
+					case !isFindResult(ci.Common().Args[0], s.find, env):
+						v.bad = "the transaction completed here was not obtained from trMap.Find in this function: " + w.desc(ci.Common().Args[0])
+					case !s.delOK:
+						v.bad = "the result is written without this function having removed the transaction from the table first: another completer (timer, response, Close) may complete it again"
+					default:
+						heldF := holds(li.mustAt(s.find), lockTr, true)
+						if s.unl != nil || !heldF {
+							unlocked := ""
+							if s.unl != nil {
+								unlocked = w.instrPos(s.unl)
+							}
+							v.bad = fmt.Sprintf("find→delete is not atomic under Client.mutexTrMap (held at Find=%v, unlocked between at %q): a response, the timer and Close can each complete the same transaction (double completion or send on a closed channel)", heldF, unlocked)
+						}
+					}
+					return s
+				}
+				if lo := w.lockOpOf(ci.Common()); lo != nil && lo.class == lockTr && lo.op == "Unlock" && s.find != nil && !s.delOK {
+					s.unl = in
+				}
+				return s
 			}
-			if all {
-				dcall = call
+			explorePaths(cfg, root, st{})
+			if cfg.Exhausted {
+				exhausted = true
 			}
-		})
-		if dcall == nil {
-			c.Bad("C12.2", fname(fn), "WriteResult", pos, "the result is written without this function having removed the transaction from the table first: another completer (timer, response, Close) may complete it again")
-			continue
 		}
-		heldF := holds(li.mustAt(fc), lockTr, true)
-		heldD := holds(li.mustAt(dcall), lockTr, true)
-		unlocked := ""
-		w.eachInstr(hfn, func(in ssa.Instruction) {
-			if call, ok := in.(*ssa.Call); ok {
-				if lo := w.lockOpOf(&call.Call); lo != nil && lo.class == lockTr && lo.op == "Unlock" && instrReaches(fc, in) && instrReaches(in, dcall) {
-					unlocked = w.instrPos(in)
-				}
+		for _, s0 := range sites {
+			fn := s0.root
+			c.Anchor("C12.2", fname(fn)+"@"+anchorOrd(c, "C12.2", fname(fn)))
+			pos := w.instrPos(s0.at)
+			v := verdicts[s0.at]
+			switch {
+			case exhausted:
+				c.Bad("C12.2", fname(fn), "WriteResult", pos, "undecided: path exploration exceeded its budget")
+			case v == nil:
+				c.Bad("C12.2", fname(fn), "WriteResult", pos, "undecided: no explored path of "+fname(fn)+" reaches this completion")
+			case v.bad != "":
+				c.Bad("C12.2", fname(fn), "WriteResult", pos, v.bad)
+			default:
+				c.OK("C12.2", fname(fn), "WriteResult", pos, fmt.Sprintf("Find and Delete of the same key inside one hold of Client.mutexTrMap on each of the %d paths to the completion", v.n))
 			}
-		})
-		if heldF && heldD && unlocked == "" {
-			c.OK("C12.2", fname(fn), "WriteResult", pos, "Find and Delete of the same key inside one hold of Client.mutexTrMap; the Delete dominates the completion")
-		} else {
-			c.Bad("C12.2", fname(fn), "WriteResult", pos, fmt.Sprintf("find→delete is not atomic under Client.mutexTrMap (held at Find=%v, at Delete=%v, unlocked between at %q): a response, the timer and Close can each complete the same transaction (double completion or send on a closed channel)", heldF, heldD, unlocked))
 		}
 	}
 
 	// ---- C12.3
-	c.Rule("C12.3", "onRtxTimeout: every path from entry to a return is exactly one of (a) Find not ok: no Delete, no WriteResult, no StartRtxTimer; (b) Delete + WriteResult, no StartRtxTimer; (c) retransmission WriteTo + StartRtxTimer, no Delete", 1)
+	c.Rule("C12.3", "onRtxTimeout: every path from entry to a return (helpers inlined) is exactly one of (a) Find not ok: no Delete, no WriteResult, no StartRtxTimer; (b) Delete + WriteResult, no StartRtxTimer; (c) retransmission WriteTo + StartRtxTimer, no Delete", 1)
 	{
 		c.Anchor("C12.3", "onRtxTimeout")
-		type st struct{ del, res, arm, sent bool }
+		type st struct {
+			find                *ssa.Call
+			del, res, arm, sent bool
+		}
 		bad := ""
-		nRet := 0
-		seen := map[string]bool{}
-		var explore func(b *ssa.BasicBlock, s st)
-		explore = func(b *ssa.BasicBlock, s st) {
-			k := fmt.Sprintf("%d|%v", b.Index, s)
-			if seen[k] {
-				return
+		retSeen := map[*ssa.Return]bool{}
+		isOp := func(in ssa.Instruction) bool {
+			ci, ok := in.(ssa.CallInstruction)
+			if !ok {
+				return false
 			}
-			seen[k] = true
-			for _, in := range b.Instrs {
-				switch x := in.(type) {
-				case *ssa.Call:
-					switch {
-					case x.Call.StaticCallee() == del:
-						s.del = true
-					case x.Call.StaticCallee() == writeRes:
-						s.res = true
-					case x.Call.StaticCallee() == startRtx:
-						s.arm = true
-					case x.Call.IsInvoke() && x.Call.Method.Name() == "WriteTo":
-						s.sent = true
-					}
-				case *ssa.Return:
-					nRet++
-					notFound := false
-					for _, f := range w.factsAt(x) {
-						if f.Op == "true" && !f.Truth {
-							if fc, fi := callOf(f.X); fc != nil && fc.Call.StaticCallee() == find && fi == 1 {
-								notFound = true
-							}
+			switch ci.Common().StaticCallee() {
+			case find, del, writeRes, startRtx:
+				return true
+			}
+			return ci.Common().IsInvoke() && ci.Common().Method.Name() == "WriteTo"
+		}
+		may := w.mayContain(isOp)
+		cfg := &ipCfg[st]{w: w}
+		cfg.Inline = func(_ ssa.CallInstruction, h *ssa.Function) bool {
+			return w.IsMod[h] && fnPkgPath(h) == modPath && may(h)
+		}
+		cfg.Step = func(in ssa.Instruction, s st, env *pathEnv, _ []ssa.CallInstruction) st {
+			ci, ok := in.(ssa.CallInstruction)
+			if !ok {
+				return s
+			}
+			if _, isGo := in.(*ssa.Go); isGo {
+				return s
+			}
+			switch {
+			case ci.Common().StaticCallee() == find:
+				if call, isCall := in.(*ssa.Call); isCall {
+					s.find = call
+				}
+			case ci.Common().StaticCallee() == del:
+				s.del = true
+			case ci.Common().StaticCallee() == writeRes:
+				s.res = true
+			case ci.Common().StaticCallee() == startRtx:
+				s.arm = true
+			case ci.Common().IsInvoke() && ci.Common().Method.Name() == "WriteTo":
+				s.sent = true
+			}
+			return s
+		}
+		cfg.Return = func(x *ssa.Return, s st, env *pathEnv) {
+			retSeen[x] = true
+			notFound := false
+			if s.find != nil {
+				for _, r := range *s.find.Referrers() {
+					if ex, ok := r.(*ssa.Extract); ok && ex.Index == 1 {
+						if known, t := env.eval(ex, 0); known && !t {
+							notFound = true
 						}
 					}
-					okA := notFound && !s.del && !s.res && !s.arm
-					okB := !notFound && s.del && s.res && !s.arm
-					okC := !notFound && s.sent && s.arm && !s.del && !s.res
-					if !(okA || okB || okC) {
-						bad = fmt.Sprintf("the return at %s ends in state {deleted:%v completed:%v re-armed:%v retransmitted:%v notFound:%v}: the transaction neither terminates nor continues cleanly", w.instrPos(x), s.del, s.res, s.arm, s.sent, notFound)
-					}
-					return
 				}
 			}
-			for _, sb := range b.Succs {
-				explore(sb, s)
+			for _, f := range w.factsAt(x) {
+				if f.Op == "true" && !f.Truth {
+					if fc, fi := callOf(f.X); fc != nil && fc.Call.StaticCallee() == find && fi == 1 {
+						notFound = true
+					}
+				}
+			}
+			okA := notFound && !s.del && !s.res && !s.arm
+			okB := !notFound && s.del && s.res && !s.arm
+			okC := !notFound && s.sent && s.arm && !s.del && !s.res
+			if !(okA || okB || okC) {
+				bad = fmt.Sprintf("the return at %s ends in state {deleted:%v completed:%v re-armed:%v retransmitted:%v notFound:%v}: the transaction neither terminates nor continues cleanly", w.instrPos(x), s.del, s.res, s.arm, s.sent, notFound)
 			}
 		}
-		explore(onRtx.Blocks[0], st{})
-		if bad == "" && nRet >= 3 {
-			c.OK("C12.3", fname(onRtx), "paths", w.pos(onRtx.Pos()), fmt.Sprintf("%d returns: each is entry-gone, delete+complete, or retransmit+re-arm", nRet))
+		explorePaths(cfg, onRtx, st{})
+		nRet := len(retSeen)
+		if cfg.Exhausted {
+			bad = "undecided: path exploration exceeded its budget"
+		}
+		if bad == "" && nRet >= 1 {
+			c.OK("C12.3", fname(onRtx), "paths", w.pos(onRtx.Pos()), fmt.Sprintf("%d returns: each path is entry-gone, delete+complete, or retransmit+re-arm", nRet))
 		} else {
 			if bad == "" {
-				bad = fmt.Sprintf("only %d returns (give-up, write-error and re-arm paths expected)", nRet)
+				bad = "no return reached"
 			}
 			c.Bad("C12.3", fname(onRtx), "paths", w.pos(onRtx.Pos()), bad)
 		}
@@ -190,6 +300,45 @@ func runC12(c *Ctx) {
 			fa, ok := sl.X.(*ssa.FieldAddr)
 			return ok && fieldOf(fa).Name() == "TransactionID"
 		}
+		// tr.Key of a *Transaction: equals the table key provided Key is written only by
+		// NewTransaction (from config.Key) and every Insert uses the config's Key (checked below)
+		keyWriters := 0
+		for _, fn := range w.ModFns {
+			w.eachInstr(fn, func(in ssa.Instruction) {
+				if st, ok := in.(*ssa.Store); ok {
+					if fa, ok := st.Addr.(*ssa.FieldAddr); ok && fieldOf(fa).Name() == "Key" {
+						if n := namedOf(fa.X.Type()); n != nil && n.Obj().Name() == "Transaction" && fn != w.Func("client", "", "NewTransaction") {
+							keyWriters++
+						}
+					}
+				}
+			})
+		}
+		insertsOwn := true
+		for _, cs := range w.callsTo(insert) {
+			if fnPkgPath(cs.Parent()) != modPath {
+				continue
+			}
+			okIns := false
+			if nc, _ := callOf(w.resolveLoad(cs.Common().Args[2])); nc != nil && nc.Call.StaticCallee() == w.Func("client", "", "NewTransaction") {
+				if al, isAl := w.resolveLoad(nc.Call.Args[0]).(*ssa.Alloc); isAl {
+					if kv := w.literalOf(al).fields["Key"]; kv != nil && w.sameKey(kv, cs.Common().Args[1]) {
+						okIns = true
+					}
+				}
+			}
+			if !okIns {
+				insertsOwn = false
+			}
+		}
+		isOwnKey := func(k ssa.Value) bool {
+			base, f, isL := fieldLoad(w.resolveLoad(k))
+			if !isL || f.Name() != "Key" || keyWriters != 0 || !insertsOwn {
+				return false
+			}
+			n := namedOf(base.Type())
+			return n != nil && n.Obj().Name() == "Transaction"
+		}
 		for _, target := range []*ssa.Function{insert, find, del} {
 			for _, cs := range w.callsTo(target) {
 				fn := cs.Parent()
@@ -201,8 +350,10 @@ func runC12(c *Ctx) {
 				switch {
 				case isEncodedID(k):
 					c.OK("C12.4", fname(fn), target.Name()+" key", w.instrPos(cs), "base64(StdEncoding) of the message's TransactionID")
-				case fn == onRtx && w.sameKey(k, onRtx.Params[1]):
+				case w.rootOf(fn) == onRtx && w.sameKey(k, onRtx.Params[1]):
 					c.OK("C12.4", fname(fn), target.Name()+" key", w.instrPos(cs), "the key carried by the timer")
+				case target != insert && isOwnKey(k):
+					c.OK("C12.4", fname(fn), target.Name()+" key", w.instrPos(cs), "the transaction's own Key (assigned once, from the encoding it is inserted under)")
 				default:
 					c.Bad("C12.4", fname(fn), target.Name()+" key", w.instrPos(cs), "transaction table key "+w.desc(k)+" is not the encoded TransactionID: requests and replies would not meet")
 				}
@@ -231,7 +382,7 @@ func runC12(c *Ctx) {
 			})
 		}
 		okCfg := false
-		w.eachInstr(perform, func(in ssa.Instruction) {
+		w.eachInstrDeep(perform, func(in ssa.Instruction) {
 			if al, ok := in.(*ssa.Alloc); ok {
 				if n := namedOf(al.Type()); n != nil && n.Obj().Name() == "TransactionConfig" {
 					if kv := w.literalOf(al).fields["Key"]; kv != nil && isEncodedID(kv) {
@@ -607,63 +758,81 @@ func ruleTransactionPairing(c *Ctx, rule string) {
 	c.Rule(rule, "insert/delete pairing: in PerformTransaction, on every path from trMap.Insert(key, tr) to a return, one of: tr.WaitForResult() was called; tr.StartRtxTimer was called and the return is on the ignoreResult==true edge; trMap.Delete(key) with the same key was called", 1)
 	{
 		c.Anchor(rule, "PerformTransaction")
-		var ins *ssa.Call
-		w.eachInstr(perform, func(in ssa.Instruction) {
-			if call, ok := in.(*ssa.Call); ok && call.Call.StaticCallee() == insert {
-				ins = call
+		isOp := func(in ssa.Instruction) bool {
+			switch staticCallee(in) {
+			case insert, wait, startRtx, del:
+				return true
 			}
-		})
-		if ins == nil {
-			c.Bad(rule, fname(perform), "trMap.Insert", w.pos(perform.Pos()), "PerformTransaction no longer inserts into the transaction table: anchor gone")
-		} else {
-			type st struct{ waited, armed, deleted bool }
-			bad := ""
-			nRet := 0
-			seen := map[string]bool{}
-			var explore func(b *ssa.BasicBlock, s st, from int)
-			explore = func(b *ssa.BasicBlock, s st, from int) {
-				k := fmt.Sprintf("%d|%v|%d", b.Index, s, from)
-				if seen[k] {
-					return
+			return false
+		}
+		may := w.mayContain(isOp)
+		type st struct {
+			ins                    *ssa.Call
+			waited, armed, deleted bool
+		}
+		bad := ""
+		var ins *ssa.Call
+		nRet := 0
+		cfg := &ipCfg[st]{w: w}
+		cfg.Inline = func(_ ssa.CallInstruction, h *ssa.Function) bool {
+			return w.IsMod[h] && fnPkgPath(h) == modPath && may(h)
+		}
+		cfg.Step = func(in ssa.Instruction, s st, env *pathEnv, _ []ssa.CallInstruction) st {
+			ci, ok := in.(ssa.CallInstruction)
+			if !ok {
+				return s
+			}
+			if _, isGo := in.(*ssa.Go); isGo {
+				return s
+			}
+			switch ci.Common().StaticCallee() {
+			case insert:
+				if call, isCall := in.(*ssa.Call); isCall {
+					s = st{ins: call}
+					ins = call
 				}
-				seen[k] = true
-				for i := from; i < len(b.Instrs); i++ {
-					switch x := b.Instrs[i].(type) {
-					case *ssa.Call:
-						switch x.Call.StaticCallee() {
-						case wait:
-							s.waited = true
-						case startRtx:
-							s.armed = true
-						case del:
-							if w.sameKey(x.Call.Args[1], ins.Call.Args[1]) {
-								s.deleted = true
-							}
-						}
-					case *ssa.Return:
-						nRet++
-						ignore := false
-						for _, f := range w.factsAt(x) {
-							if f.Op == "true" && f.Truth && w.sameKey(f.X, perform.Params[3]) {
-								ignore = true
-							}
-						}
-						if !(s.waited || s.deleted || (s.armed && ignore)) {
-							bad = "the return at " + w.instrPos(x) + " leaves the transaction in the table with nobody waiting and no timer armed (or the result not ignored): it stays there for the life of the client"
-						}
-						return
+			case wait:
+				s.waited = true
+			case startRtx:
+				s.armed = true
+			case del:
+				if s.ins != nil {
+					k, ik := ci.Common().Args[1], s.ins.Call.Args[1]
+					if w.sameKey(k, ik) || env.resolve(w.resolveLoad(k)) == env.resolve(w.resolveLoad(ik)) {
+						s.deleted = true
 					}
 				}
-				for _, sb := range b.Succs {
-					explore(sb, s, 0)
+			}
+			return s
+		}
+		cfg.Return = func(x *ssa.Return, s st, env *pathEnv) {
+			if s.ins == nil {
+				return // nothing was inserted on this path
+			}
+			nRet++
+			ignore := false
+			for _, f := range w.factsAt(x) {
+				if f.Op == "true" && f.Truth && w.sameKey(f.X, perform.Params[3]) {
+					ignore = true
 				}
 			}
-			explore(ins.Block(), st{}, indexIn(ins)+1)
-			if bad == "" {
-				c.OK(rule, fname(perform), "trMap.Insert", w.instrPos(ins), fmt.Sprintf("%d returns after the insert: each waited, deleted, or armed+ignore", nRet))
-			} else {
-				c.Bad(rule, fname(perform), "trMap.Insert", w.instrPos(ins), bad)
+			if known, t := env.eval(perform.Params[3], 0); known && t {
+				ignore = true
 			}
+			if !(s.waited || s.deleted || (s.armed && ignore)) {
+				bad = "the return at " + w.instrPos(x) + " leaves the transaction in the table with nobody waiting and no timer armed (or the result not ignored): it stays there for the life of the client"
+			}
+		}
+		explorePaths(cfg, perform, st{})
+		switch {
+		case ins == nil:
+			c.Bad(rule, fname(perform), "trMap.Insert", w.pos(perform.Pos()), "PerformTransaction no longer inserts into the transaction table: anchor gone")
+		case cfg.Exhausted:
+			c.Bad(rule, fname(perform), "trMap.Insert", w.instrPos(ins), "undecided: path exploration exceeded its budget")
+		case bad == "":
+			c.OK(rule, fname(perform), "trMap.Insert", w.instrPos(ins), fmt.Sprintf("%d paths return after the insert: each waited, deleted, or armed+ignore", nRet))
+		default:
+			c.Bad(rule, fname(perform), "trMap.Insert", w.instrPos(ins), bad)
 		}
 	}
 
